@@ -735,6 +735,13 @@ def correspond(ctx):
                                    offset=rng.choice([0.0, 1.0e5]), track=False, ns=[1] * N, use_default=[True] * N,
                                    arr_dtype="int", style="const")))
         cases.append(("deep", dict(kind="sampler", mode=mode, family="ties", n=1, L=[[3, -2]] * N, offset=0.0, track=False)))
+        # steeply rising likelihoods at deep volumes: the LATE terms (volumes below exp(-745)) carry the evidence, so an
+        # implementation that lets the interval widths leave log space gets logZ wrong by hundreds of nats (seeded change C02-b)
+        for off in (0.0, 1.0e3):
+            cases.append(("deep", dict(kind="sampler", mode=mode, family="steep", n=1, L=[[1, 2 * i] for i in range(N)],
+                                       offset=off, track=False)))
+    cases.append(("deep", dict(kind="sampler", mode="logt", family="steep", n=2, L=[[1, i] for i in range(1800)],
+                               offset=0.0, track=False)))
     if not ctx.quick:
         for mode, top in (("t", 5000), ("t", 5000), ("t", 3000), ("logt", 2000), ("logt", 1500), ("logt", 1000)):   # long runs
             while True:
